@@ -169,6 +169,34 @@ class Opaque(V):
         return f"Opaque({self.tag})"
 
 
+class Havoc(V):
+    """under-constrained object of an arithmetic slice: fields materialise on first access (scalars as fresh symbols).
+    Counterexamples that depend on havoc'd state are only *candidates* until replayed through the public API."""
+    counter = [0]
+
+    def __init__(self, ty, name="h"):
+        self.ty = ty
+        self.name = name
+        self.fields = {}
+
+    def field(self, idx, fty):
+        if idx not in self.fields:
+            fty = fty.strip()
+            nm = f"{self.name}.{idx}"
+            if fty in INT_W:
+                Havoc.counter[0] += 1
+                if fty == "bool":
+                    self.fields[idx] = I("bool", z3.Bool(f"{nm}#{Havoc.counter[0]}"))
+                else:
+                    self.fields[idx] = I(fty, z3.BitVec(f"{nm}#{Havoc.counter[0]}", INT_W[fty]))
+            else:
+                self.fields[idx] = Havoc(fty, nm)
+        return self.fields[idx]
+
+    def __repr__(self):
+        return f"Havoc<{self.ty[:40]}>"
+
+
 class Uninit(V):
     def __deepcopy__(self, memo):
         return self
